@@ -183,9 +183,8 @@ func (e *Engine) zero(t types.Type) Value {
 }
 
 func fpConst(f float64) *T {
-	t := mk("const", FPS)
-	t.Str = fmt.Sprintf("((_ to_fp 11 53) RNE %s)", fpLit(f))
-	return t
+	str := fmt.Sprintf("((_ to_fp 11 53) RNE %s)", fpLit(f))
+	return intern("cfp|"+str, &T{Op: "const", Sort: FPS, Str: str})
 }
 func fpLit(f float64) string {
 	s := fmt.Sprintf("%.20f", f)
